@@ -34,12 +34,12 @@ def write_cfg(name, module_consts, invariants, props=()):
 
 
 def prayerday_mc(rep, name, invariants, roundings="{0, 2}", fajr_offsets="{0, 90000}", props=(), workers=10, neg="FALSE"):
-    cfg = write_cfg(name + ".cfg", {"LegacyUnwrap": "FALSE", "LegacyImsaak": "FALSE", "LegacyImsaakFlag": "FALSE", "Roundings": roundings, "FajrOffsets": fajr_offsets, "NegOffsets": neg},
+    cfg = write_cfg(name + ".cfg", {"LegacyUnwrap": "FALSE", "LegacyImsaak": "FALSE", "LegacyImsaakFlag": "FALSE", "LegacyLateInt": "FALSE", "Roundings": roundings, "FajrOffsets": fajr_offsets, "NegOffsets": neg},
                     invariants, props)
     mc = tlc_must_pass("PrayerDay", cfg, workers=workers, coverage=True, timeout=2400, heap="8g")
     rep.add_tlc(mc)
     rep.extra["action_coverage"] = {k: v[1] for k, v in mc.coverage.items()}
-    for act in ("GetHoursA", "PolicyA", "IntervalA", "TimesA", "Imsaak1A", "Imsaak2A"):
+    for act in ("GetHoursA", "PreIntervalA", "PolicyA", "IntervalA", "TimesA", "Imsaak1A", "Imsaak2A"):
         if act in mc.coverage and mc.coverage[act][1] == 0:
             raise ToolError(f"vacuous model: action {act} never taken")
     return mc
